@@ -15,6 +15,7 @@ import (
 
 // Exec executes one verification unit.
 type Exec struct {
+	safetyLimit token.Pos // unit function: no safety obligations at or after this position
 	autoDepth   int
 	autoParents []*frame
 	E           *Engine
@@ -362,12 +363,29 @@ func (x *Exec) addEdge(fr *frame, from, to *ssa.BasicBlock, st *State, cond Term
 }
 
 func (x *Exec) block(fr *frame, b *ssa.BasicBlock, s *State) {
+	past := false
+	if x.safetyLimit != token.NoPos && fr.fn == x.unitFn {
+		for _, in := range b.Instrs {
+			if p := in.Pos(); p != token.NoPos {
+				past = p >= x.safetyLimit
+				break
+			}
+		}
+	}
+	savedSafety := x.safety
+	defer func() { x.safety = savedSafety }()
 	for _, in := range b.Instrs {
 		if _, ok := in.(*ssa.Phi); ok {
 			continue
 		}
 		if s.Reach.S == "false" {
 			return
+		}
+		if x.safetyLimit != token.NoPos && fr.fn == x.unitFn && savedSafety {
+			if p := in.Pos(); p != token.NoPos {
+				past = p >= x.safetyLimit
+			}
+			x.safety = !past
 		}
 		switch in := in.(type) {
 		case *ssa.If:
